@@ -122,7 +122,7 @@ package mqtt
 
 //@ func (*RetryClient).Connect
 //@   mode int
-//@   props C09 C17
+//@   props C01 C02 C09 C17
 //@   requires c != nil && ctx != nil && len(clientID) <= 0xFFFF
 //@   requires forall(0, len(opts), func(i int) bool { return opts[i] != nil })
 //@   note protocol of the Retryer interface: SetClient (with a client that has a transport) is called before Connect
@@ -137,6 +137,10 @@ package mqtt
 //@   ensures[C09] same_connect: evArg[string]("(*BaseClient).Connect", 0, 2) == clientID && sameSlice(evArg[[]ConnectOption]("(*BaseClient).Connect", 0, 3), opts) &&
 //@        evArg[context.Context]("(*BaseClient).Connect", 0, 1) == ctx
 //@   ensures[C01] signalled: evCount("close") == 1 && evIndex("(*BaseClient).Connect", 0) < evIndex("close", 0)
+//@   ensures[C01,C02] failure_forwarded: evCount("send") == ite(evRet[error]("(*BaseClient).Connect", 0, 1) != nil, 1, 0) &&
+//@        (evCount("send") == 1 ==> evArg[error]("send", 0, 1) == evRet[error]("(*BaseClient).Connect", 0, 1) && evIndex("send", 0) < evIndex("close", 0) &&
+//@             evArg[chan error]("send", 0, 0) == evArg[chan error]("close", 0, 0)) &&
+//@        evArg[chan error]("close", 0, 0) == guardVal(&c.chConnectErr)
 
 // ---- the task bodies: publish / subscribe / unsubscribe (C01, C03, C08, C12, C18) ----
 
@@ -377,6 +381,8 @@ package mqtt
 //@   let old ssnap[retryFn] = sliceSnap(c.retryQueue)
 //@   let es0 []Subscription = c.subEstablished
 //@   loop 1 invariant sub_arr: sameArray(c.subEstablished, es0) || fresh(c.subEstablished) || c.subEstablished == nil
+//@   loop 1 let qlen0 int = len(c.retryQueue)
+//@   loop 1 exit[C01,C02,C03,C12] starts_empty: qlen0 == 0
 //@   loop 1 iterlet qi ssnap[retryFn] = sliceSnap(c.retryQueue)
 //@   loop 1 invariant copy: len(oldRetryQueue) == ssLen(old) && forall(0, ssLen(old), func(i int) bool { return sameFunc(oldRetryQueue[i], ssAt(old, i)) }) &&
 //@        !sameArray(oldRetryQueue, c.retryQueue)
@@ -429,6 +435,9 @@ package mqtt
 //@   loop 1 iter[C01,C02] switch_noticed: connected && evCount("select") >= 1 && evRet[int]("select", 0, 0) == 0 ==> !connected_next && evCount("fntype:func(ctx context.Context, cli *BaseClient)") == 0
 //@   loop 1 iter[C01,C02] switch_noticed_idle: connected && evCount("select") == 2 && evRet[int]("select", 1, 0) == 1 ==> !connected_next &&
 //@        evArg[chan struct{}]("select", 1, 1) == evArg[chan struct{}]("select", 0, 0)
+//@   loop 1 let connected0 bool = connected
+//@   loop 1 iter[C01,C02] starts_disconnected: !connected0
+//@   loop 1 iter[C01,C02] reconnects: !connected ==> connected_next && evCount("fntype:func(ctx context.Context, cli *BaseClient)") == 0
 //@   loop 1 iter[C01,C02] stays_connected: connected_next ==> connected || evCount("fntype:func(ctx context.Context, cli *BaseClient)") == 0
 //@   loop 2 exit[C01] connect_returned: evCount("select") == 1 && evRet[int]("select", 0, 0) == 0 && !evRet[bool]("select", 0, 1)
 
